@@ -622,8 +622,8 @@ fn oracle_corpus(seed: u64, thorough: bool, only: Option<(&str, u64)>) -> Oracle
             Ok(f) => (f.trailer.size.max(1) as u64, f.num_pages()),
             Err(_) => { or.count(&format!("unreadable={}", name)); continue; }
         };
-        let n_obj = if thorough { 40 } else { 10 };
-        let n_seq = if thorough { 60 } else { 20 };
+        let n_obj = if thorough { 80 } else { 10 };
+        let n_seq = if thorough { 150 } else { 20 };
         for case in 0..(n_obj + n_seq) {
             if let Some((f, c)) = only {
                 if f != name || c != case { continue; }
@@ -701,14 +701,14 @@ pub fn run(driver: &Driver, seed: u64, thorough: bool, replay: Option<&serde_jso
     let mut wor = Oracle::new("c12.witness");
     rep.streams.push(stream_witness(driver, &mut wor));
     rep.oracles.push(wor);
-    rep.streams.push(stream_orders(driver, seed, 0, if thorough { 150 } else { 30 }, &mut or));
-    rep.streams.push(stream_random(driver, "c12.random", seed, 0, if thorough { 20_000 } else { 2500 }, false, &mut or));
+    rep.streams.push(stream_orders(driver, seed, 0, if thorough { 400 } else { 30 }, &mut or));
+    rep.streams.push(stream_random(driver, "c12.random", seed, 0, if thorough { 60_000 } else { 2500 }, false, &mut or));
     let mut cor = Oracle::new("c12.uncached-cyclic");
-    rep.streams.push(stream_random(driver, "c12.cyclic", seed, 0, if thorough { 4000 } else { 500 }, true, &mut cor));
+    rep.streams.push(stream_random(driver, "c12.cyclic", seed, 0, if thorough { 10_000 } else { 500 }, true, &mut cor));
     rep.oracles.push(or);
     rep.oracles.push(cor);
-    rep.streams.push(stream_domain(driver, seed, if thorough { 20_000 } else { 1500 }));
-    rep.oracles.push(oracle_prefix(seed, if thorough { 10_000 } else { 1500 }));
+    rep.streams.push(stream_domain(driver, seed, if thorough { 50_000 } else { 1500 }));
+    rep.oracles.push(oracle_prefix(seed, if thorough { 30_000 } else { 1500 }));
     rep.oracles.push(oracle_corpus(seed, thorough, None));
     rep
 }
